@@ -1,10 +1,45 @@
-(* C01 -- placeholder while the refinement proof is being built: see proofs/SkeletonProofs.v *)
+(* C01 -- a handle is valid exactly while the entity it was issued for is alive.
+   The Skeleton (coq/Skeleton.v, tied to entity_manager.{hpp,cpp} by the correspondence runs of ./check C01) driven by
+   ANY script over create / destroy / destroyNow / clearArchetype / update / lock / unlock, from any thread ids,
+   answers every validity query exactly as the liveness specification (coq/SkelSpec.v) does, for every handle ever
+   issued; no handle is issued twice.  Hypothesis: fewer than 16 777 000 handles issued (the 24-bit version field does
+   not wrap before that -- the property text excludes wrap-around), and the model run does not end in Err (an Err of the
+   model is a crash/throw of the code: update() while locked, thread id beyond the buffers). *)
 Require Import Coq.Lists.List Coq.NArith.NArith.
 From Mustache Require Import Res Skeleton SkelSpec SkelRun.
+From Mustache.proofs Require Import SkelInv SkelRefine SkelMain.
 Import ListNotations.
 
-Example C01_example_run :
-  exists s hs, srun 4 [SoCreate 0 1; SoCreate 0 1; SoDestroyNow 0 0; SoLock; SoCreate 1 1; SoUnlock; SoCreate 0 1]%N = Ok (s, hs)
-               /\ map (is_valid s) hs = [false; true; true; true].
-Proof. eexists. eexists. split. vm_compute. reflexivity. vm_compute. reflexivity. Qed.
-Print Assumptions C01_example_run.
+Theorem C01_validity_is_liveness : forall n ops s hs,
+  srun n ops = Ok (s, hs) -> (N.of_nat (length hs) < 16777000)%N ->
+  length hs = sp_count (spec_run n ops) /\
+  NoDup hs /\
+  forall k, k < length hs -> is_valid s (nth k hs null_handle) = alive_b (spec_run n ops) k.
+Proof. exact validity_is_liveness. Qed.
+Print Assumptions C01_validity_is_liveness.
+
+(* the whole relation: free list, locations, archetype membership, command buffers, deferred-destroy set *)
+Theorem C01_refinement : forall n ops s hs,
+  srun n ops = Ok (s, hs) -> (N.of_nat (length hs) < 16777000)%N -> R s hs (spec_run n ops).
+Proof. exact skeleton_refines_spec. Qed.
+Print Assumptions C01_refinement.
+
+(* a recycled id is reissued only with a version that no earlier handle of that id carried *)
+Theorem C01_recycled_versions_fresh : forall n ops s hs i j,
+  srun n ops = Ok (s, hs) -> (N.of_nat (length hs) < 16777000)%N ->
+  i < length hs -> j < length hs -> i <> j -> fst (nth i hs null_handle) = fst (nth j hs null_handle) ->
+  snd (nth i hs null_handle) <> snd (nth j hs null_handle).
+Proof.
+  intros n ops s hs i j H Hb Hi Hj Hne Hid Hver.
+  destruct (validity_is_liveness n ops s hs H Hb) as (_ & Hnd & _).
+  apply Hne. apply (proj1 (NoDup_nth hs null_handle) Hnd); try assumption.
+  destruct (nth i hs null_handle), (nth j hs null_handle). simpl in *. congruence.
+Qed.
+Print Assumptions C01_recycled_versions_fresh.
+
+(* the hypotheses are satisfiable on a run that recycles ids, defers under lock and clears an archetype *)
+Example C01_nonvacuous :
+  exists s hs, srun 4 [SoCreate 0 1; SoCreate 0 1; SoDestroyNow 0 0; SoLock; SoCreate 1 1; SoDestroy 2 1; SoDestroyNow 1 2; SoCreate 0 2;
+                       SoUnlock; SoCreate 0 1; SoUpdate; SoClearArch 2; SoCreate 0 2]%N = Ok (s, hs)
+               /\ (N.of_nat (length hs) < 16777000)%N /\ map (is_valid s) hs = [false; false; false; false; true; true].
+Proof. eexists. eexists. split; [vm_compute; reflexivity|]. split; vm_compute; reflexivity. Qed.
